@@ -144,6 +144,7 @@ var fieldWordsShaped = []string{"user_id", "item_name", "f1", "x2_y", "page_size
 type g struct {
 	r    *rng
 	r2   *rng // side stream for features added later (keeps earlier worlds unchanged)
+	r3   *rng // second side stream (wave 6 shapes)
 	cfg  Config
 	on   map[string]bool
 	w    *spec.World
@@ -234,6 +235,7 @@ func World(cfg Config) *spec.World {
 		}
 	}
 	x.r2 = &rng{s: Mix(cfg.Seed, 0x51de)}
+	x.r3 = &rng{s: Mix(cfg.Seed, 0x3c03)}
 	for _, f := range LateFeatures {
 		if (cfg.Allow == nil || cfg.Allow[f]) && x.r2.chance(1, 2) {
 			x.on[f] = true
@@ -711,16 +713,25 @@ func (x *g) method(s *spec.Service, name string, idx int, usedRoutes map[string]
 		}
 	}
 	if shared != nil {
+		// the same path shape under another verb; sometimes with the variables named differently
+		// (GET /items/{id} next to DELETE /items/{item_id}: one route shape, two templates)
+		rename := len(shared.vars) > 0 && x.r3.chance(1, 3)
+		sp := shared.path
 		for _, v := range shared.vars {
 			cp := *v
 			cp.Number = num
 			num++
+			if rename {
+				old := cp.Name
+				cp.Name = old + "_alt"
+				sp = strings.ReplaceAll(sp, "{"+old+"}", "{"+cp.Name+"}")
+			}
 			taken[cp.Name] = true
 			req.Fields = append(req.Fields, &cp)
 			vars = append(vars, cp.Name)
 		}
 		nVars = len(vars)
-		m.Path = shared.path
+		m.Path = sp
 		bpth := ""
 		if s.BasePath != nil {
 			bpth = *s.BasePath
